@@ -33,7 +33,7 @@ def exactness(cname, sym_pre=True):
         lhs, b, Dref, rho, g, rates = inter.reference(calc, inp, cap['gamma'], sq)
         obs = []
         info = {'inputs': inp.inputs, 'replayer': 'D', 'extra': {'crystal': cname},
-                'probe': [inter.concrete_instance(inp, k) for k in (0, 3, 7)]}
+                'probe': [inter.concrete_instance(inp, k) for k in (0, 3, 7)] + inter.witness_instances(calc, inp)}
         for i in range(calc.N):
             for a in range(calc.dim):
                 obs.append(('%s:balance-site%d-%d' % (cname, i, a), lhs[i, a] == b[i, a], dict(info, sig='balance')))
